@@ -17,10 +17,10 @@ MIN_OUTCOMES = 10
 AA = set("ACDEFGHIKLMNPQRSTVWY")
 
 CELLS = {
-    "TRAV": ("TRAV1-1*01", "TCRAV1S1", "TRAV11*01", "unknown", None),
+    "TRAV": ("TRAV1-1*01", "TCRAV1S1", "TRAV11*01", "TRAV19*07", "unknown", None),
     "CDR3A": ("CAVRDSNYQLIW", "AVRDSNYQLI", "CAVRDSNYQLIC", "cavr1", None),
     "TRAJ": ("TRAJ1*01", "aj2", "TRAJ3*01", "HLA-A2", "junk", None),
-    "TRBV": ("TRBV6-1*01", "bv13*1", "TRBV1*01", None),
+    "TRBV": ("TRBV6-1*01", "bv13*1", "TRBV1*01", "TRBV13*09", None),
     "CDR3B": ("CASSF", "ass", "CC", "x1", None),
     "TRBJ": ("TRBJ2-4*01", "bj1.5*1", "B2M", "junk", None),
     "Epitope": ("GILGFVFTL", "gilgfvftl", "not-an-epitope", None),
@@ -89,11 +89,11 @@ def spaces(tier):
     def gen_merge():
         keysets = [ks for ks in E.subsets((1, 2, 3, 4), 1)]
         pick = keysets[::2] if q else keysets
-        for nt in (2, 3) if q else (2, 3, 4):
-            for ci, ks in enumerate(itertools.product(pick, repeat=nt)):
+        for nt in (2, 3, 4):
+            for ci, ks in enumerate(itertools.product(pick if nt < 4 else keysets[::3], repeat=nt)):
                 if nt == 3 and ci % (3 if q else 5) != 1:
                     continue
-                if nt == 4 and ci % 97 != 1:
+                if nt == 4 and ci % (11 if q else 3) != 1:
                     continue
                 yield ("merge", ks)
 
@@ -102,7 +102,7 @@ def spaces(tier):
         Space("single-cell-tables-x-option-product", gen_single, "one-row, one-column tables for each of the 9 standard columns x every cell value x all 192 option combinations", shards=32),
         Space("chain-rows-x-options", gen_chain, "one-row tables over each chain's four columns (all cell combinations) x option star (quick) / full 192-option product (thorough); all-nine-columns rows x 192 options", shards=64),
         Space("multi-row-tables-x-option-star", gen_multi, "2-row (thorough: + thinned 3-row) tables over 4 columns x option star; index shifted, extra column", shards=32),
-        Space("multimerge", gen_merge, "2..3(4) tables with key sets from the non-empty subsets of {1,2,3,4} (thinned by a fixed stride) x on in {index, column} x suffixes x how in {default, inner}"),
+        Space("multimerge", gen_merge, "2..4 tables with key sets from the non-empty subsets of {1,2,3,4} (thinned by a fixed stride) x on in {index, column} x suffixes x how in {default (outer), inner, left}"),
     ]
 
 
@@ -265,7 +265,7 @@ def _check_merge(acc, case):
         acc.cls("merge-partial-keys")
     for on in ("index", "k", "x", "in"):         # a key column may have any name, e.g. one that is a substring of "index"
         for suff in (None, ["s%d" % i for i in range(nt)]):
-            for how in (None, "inner"):
+            for how in (None, "inner", "left"):
                 dfs = []
                 for ti, ks in enumerate(keysets):
                     vname = "v" if suff else "v%d" % ti
@@ -285,7 +285,7 @@ def _check_merge(acc, case):
                     kw["how"] = how
                 args = (dfs, on) if not suff else (dfs, on, suff)
                 r = acc.call(pyrepseq.multimerge, *args, **kw)
-                keys = inter if how == "inner" else union
+                keys = inter if how == "inner" else (sorted(keysets[0]) if how == "left" else union)      # iterated left join keeps the first table's keys
                 names = ["v_s%d" % i for i in range(nt)] if suff else ["v%d" % i for i in range(nt)]
                 exp = {k: tuple((10 * ti + k) if k in keysets[ti] else None for ti in range(nt)) for k in keys}
                 key = "multimerge/on-%s/%s/%s" % ("index" if on == "index" else ("column" if on == "k" else "column-named-" + on), "suffixes" if suff else "no-suffixes", how or "default-outer")
